@@ -97,7 +97,9 @@ class Scenario:
                 if host is None:
                     host = w.new_zeroconf(name="B")
                 log = BrowserLog(w, host, lookups)
-                AsyncServiceBrowser(host.zc, type_, listener=log)
+                # some variants browse a second type that nobody offers (a multi-type browser must not lose the first)
+                types = [type_, "_unoffered._tcp.local."] if self.variant.get("multi") else type_
+                AsyncServiceBrowser(host.zc, types, listener=log)
                 browsers[key] = (log, type_)
 
             def registered_at(t: float, type_: str) -> set:
@@ -225,6 +227,7 @@ def plan(tier: str) -> List[Tuple[str, Dict[str, Any], int]]:
         return [(n, v, min(b, 2)) for n, v, b in plan("thorough")]
     return [("unregister", {"browse_at": 0}, 3), ("unregister", {"browse_at": 1200, "late": True}, 3),
             ("unregister", {"browse_at": 5000, "late": True}, 3), ("unregister", {"browse_at": 5000}, 2),
+            ("unregister", {"browse_at": 5000, "multi": True}, 2), ("unregister", {"browse_at": 0, "multi": True}, 1),
             ("update-close", {"browse_at": 0}, 2), ("update-close", {"browse_at": 1200, "late": True}, 2),
             ("update-close", {"browse_at": 5000, "late": True}, 3),
             ("three", {"browse_at": 500}, 2), ("three", {"browse_at": 6000, "late": True}, 2),
@@ -244,7 +247,7 @@ def run(tier: str, seed: int) -> Tuple[Stats, str, List[str], Dict[str, Any]]:
             raise HarnessError(f"C07 scenario {name} is not deterministic")
         if a[0] is None and a[2] < 8:
             raise HarnessError(f"C07 scenario {name} is vacuous: {a[2]} datagrams in the default execution")
-        label = f"{name}/{variant['browse_at']}{'/late' if variant.get('late') else ''}" + (
+        label = f"{name}/{variant['browse_at']}{'/late' if variant.get('late') else ''}{'/multi' if variant.get('multi') else ''}" + (
             f"/unreg+{variant['unregister_after']}" if name == "churn" else "")
         done = explore_deviations(sc.run, bound, stats, label,
                                   max_execs=None if tier == "quick" else 1_500_000)
